@@ -96,6 +96,29 @@ Theorem C02_list_move :
 Proof. exact (fun H r => list_move_c H the_spec r the_spec_good). Qed.
 Print Assumptions C02_list_move.
 
+(* The C-vs-C++ driver mode at its SOURCE (compiler.rs detect_c_compiler, translated into the_script_ids /
+   the_drivers): a detected kind yields plusplus() = true exactly when its id ends in "++", and every "++" id the
+   detection script can print is handled ... *)
+Theorem C02_driver_mode_table :
+  (forall k b, driver_pp the_drivers k = Some b -> b = ends_pp k) /\
+  (forall i, In i the_script_ids -> ends_pp i = true -> driver_pp the_drivers i = Some true).
+Proof. exact (drivers_ok_spec the_script_ids the_drivers the_drivers_ok). Qed.
+Print Assumptions C02_driver_mode_table.
+
+(* ... hence the C and the C++ driver of one binary (same digest, same version, same everything else) never share
+   a pre-image. *)
+Theorem C02_driver_mode_separates :
+  forall (H : bytes -> bytes) (r : creq) (k1 k2 : bytes) (b1 b2 : bool),
+    driver_pp the_drivers k1 = Some b1 -> driver_pp the_drivers k2 = Some b2 ->
+    ends_pp k1 = true -> ends_pp k2 = false ->
+    wf_c the_spec (set_plusplus r b1) = true -> wf_c the_spec (set_plusplus r b2) = true ->
+    encode_c H the_spec (set_plusplus r b1) <> encode_c H the_spec (set_plusplus r b2).
+Proof.
+  exact (fun H r k1 k2 b1 b2 =>
+           driver_mode_separates H the_spec the_script_ids the_drivers r k1 k2 b1 b2 the_spec_good the_drivers_ok).
+Qed.
+Print Assumptions C02_driver_mode_separates.
+
 (* BLAKE3's collision-freeness is a hypothesis on exactly the two encodings compared. *)
 Theorem C02_key_iff :
   forall (H : bytes -> bytes) (r1 r2 : creq),
@@ -295,5 +318,9 @@ Print Assumptions C02_old_env_cover_refuted.
 (* ------------------------------------------------------------------ non-vacuity *)
 Example C02_ex_wf : wf_c the_spec ex_req = true /\ wf_p the_spec ex_req = true /\ extra_pp_ok ex_req ex_req = true.
 Proof. vm_compute; repeat split; reflexivity. Qed.
+Example C02_ex_drivers :
+  driver_pp the_drivers [97; 112; 112; 108; 101; 45; 99; 108; 97; 110; 103; 43; 43] = Some true     (* apple-clang++ *)
+  /\ driver_pp the_drivers [97; 112; 112; 108; 101; 45; 99; 108; 97; 110; 103] = Some false.        (* apple-clang *)
+Proof. vm_compute; split; reflexivity. Qed.
 Example C02_ex_spec : spec_good the_spec /\ env_covers the_spec = true.
 Proof. exact (conj the_spec_good the_spec_env_covers). Qed.
